@@ -672,6 +672,15 @@ def run_real(cfg):
                     rec['broke'] = True
                     raise
             opt._evolve_population = counted
+        else:
+            # random search: one loop iteration = one request for a new individual, whether or not its evaluation
+            # succeeds (failed steps record nothing, so recorded generations undercount the steps)
+            inner_gen = opt._generate_new_individual
+
+            def counted_gen():
+                rec['started'] += 1
+                return inner_gen()
+            opt._generate_new_individual = counted_gen
         t0 = time.time()
         rec['limit_s'] = run_limit_s(cfg)
         old_handler = signal.signal(signal.SIGALRM, _on_alarm)
@@ -698,6 +707,7 @@ def run_real(cfg):
         rec['labels'] = [g.label or '' for g in opt.history.generations]
         rec['iters'] = int(getattr(opt, 'current_iteration_num', 0)) if not populational else 0
         rec['call_minutes'] = [_minutes(e['abs'] - start) for e in log] if (start and not populational) else []
+        rec['objective_calls'] = len(log)
         rec['timer_terminated'] = bool(opt.timer.process_terminated)
     return rec
 
@@ -737,6 +747,7 @@ def summarise(rec):
     return {'cfg': rec['cfg'], 'outcome': rec['outcome'], 'labels_sizes': list(zip(rec.get('labels', []), [p['size'] for p in rec['pops']] or rec.get('evolved_sizes', []))),
             'evolved_sizes': rec.get('evolved_sizes'), 'keeper': [(p['gen'], p['stag']) for p in rec['pops']],
             'pop_size_param': [p['pop_size'] for p in rec['pops']], 'steps_started': rec['started'], 'iterations': rec.get('iters'),
+            'objective_calls': rec.get('objective_calls'),
             'wall_ms': rec.get('wall_ms'), 'exception': rec.get('exception')}
 
 
@@ -801,7 +812,17 @@ def make_configs(ctx):
         }
         if rng.random() < 0.2:
             cfg['objective'] = {'metrics': rng.choice([['size', 'depth'], ['plateau', 'neg_size']]), 'multi': True}
+        # partially failing objectives: failed steps record nothing but are steps all the same
+        if (kind in ('random_search', 'random_mutation') and rng.random() < 0.5) or rng.random() < 0.12:
+            cfg['objective']['faults'] = {'by_class': [rng.choice([2, 3]), rng.randrange(2), rng.choice(['raise', 'none', 'nan'])]}
         out.append(cfg)
+    # random search with a generation limit only and an objective failing on about half of the graphs
+    for k in range(ctx.budget(4, 16)):
+        out.append(dict(out[k], optimiser=['random_search', 'random_mutation'][k % 2], num_of_generations=rng.choice([5, 6]),
+                        timeout_min=rng.choice([None, GENEROUS]), early_stopping_iterations=None, early_stopping_timeout=None,
+                        objective={'metrics': [rng.choice(['size', 'neg_size'])], 'multi': False,
+                                   'faults': {'by_class': [2, k % 2, rng.choice(['raise', 'none', 'nan'])]}},
+                        initial=rng.choice(['two', 'three']), seed=rng.randrange(10 ** 6)))
     # more initial graphs than max_pop_size: the genetic optimisers clamp at the first step (the two random-mutation
     # optimisers never read max_pop_size and are outside the documented domain of this clause)
     for k in range(ctx.budget(3, 12)):
@@ -908,7 +929,9 @@ def real_runs(ctx, started=None):
                   optimiser=cfg['optimiser'], scheme=cfg['scheme'], outcome=rec['outcome'], evolved=min(evolved, 6),
                   num_of_generations=str(lim[0]), early_stopping_iterations=str(lim[1]),
                   early_stopping_timeout=str(cfg.get('early_stopping_timeout')), timeout_min=str(cfg.get('timeout_min')),
-                  progress_bar=bool(cfg.get('show_progress')), timer_terminated=rec.get('timer_terminated'))
+                  progress_bar=bool(cfg.get('show_progress')), timer_terminated=rec.get('timer_terminated'),
+                  failing_objective=bool(cfg['objective'].get('faults')),
+                  steps_beyond_recorded=min(max(rec['started'] - evolved, 0), 6))
         judge_run(ctx, 'runs', rec, flags)
     for rec in recs[:3]:
         ctx.sample(summarise(rec))
